@@ -1,9 +1,9 @@
 (** C06 — probe emission.  Theorems only.
-    PARTIAL: checksum validity is proved for the IPv4 header, the ICMPv4 echo body and every TCP
-    segment (SYN and SACK probes); for UDP and ICMPv6 it is checked on the emitted bytes by the
-    correspondence (independent receiver-side verification), not yet proved. *)
+    Checksum validity is proved for every builder: the IPv4 header, the ICMPv4 and ICMPv6 echo bodies, every UDP
+    datagram and every TCP segment (SYN and SACK probes); the correspondence additionally verifies the emitted bytes
+    with an independent receiver-side implementation. *)
 From Coq Require Import List ZArith Bool.
-From TR Require Import Lib.Bytes Wire.Decode Wire.Build Drv.Drivers Spec.C06 Proofs.BuildProofs Eng.Engine Eng.Parallel Eng.Timed Proofs.EngParallel Proofs.EngCorollaries Spec.C03.
+From TR Require Import Lib.Bytes Wire.Decode Wire.Build Drv.Drivers Spec.C06 Proofs.BuildProofs Proofs.BuildProofs2 Eng.Engine Eng.Parallel Eng.Timed Proofs.EngParallel Proofs.EngCorollaries Spec.C03.
 Import ListNotations.
 Open Scope Z_scope.
 
@@ -45,6 +45,22 @@ Theorem C06_icmp4_checksum : forall echo_id ttl, byte_ok ttl ->
   verifies (put16 2 (cksum ([8; 0; 0; 0] ++ u16b echo_id ++ u16b ttl ++ [ttl]) 0) ([8; 0; 0; 0] ++ u16b echo_id ++ u16b ttl ++ [ttl])) 0 = true.
 Proof. exact icmp4_body_checksum. Qed.
 Print Assumptions C06_icmp4_checksum.
+
+(** every UDP datagram (IPv4 and IPv6 pseudo-header alike) verifies at the receiver *)
+Theorem C06_udp_checksum src dst sport dport payload :
+  Forall byte_ok src -> Forall byte_ok dst -> (length src <= 16)%nat -> (length dst <= 16)%nat ->
+  Forall byte_ok payload -> (length payload <= 1000)%nat ->
+  verifies (udp_segment src dst sport dport payload) (pseudo src dst 17 (len (udp_segment src dst sport dport payload))) = true.
+Proof. exact (@udp_segment_checksum src dst sport dport payload). Qed.
+Print Assumptions C06_udp_checksum.
+
+(** the ICMPv6 echo body verifies against the IPv6 pseudo-header *)
+Theorem C06_icmp6_checksum src dst echo_id ttl :
+  Forall byte_ok src -> Forall byte_ok dst -> (length src <= 16)%nat -> (length dst <= 16)%nat -> byte_ok ttl ->
+  let body0 := [128; 0; 0; 0] ++ u16b echo_id ++ u16b ttl ++ [ttl] in
+  verifies (put16 2 (cksum body0 (pseudo src dst 58 (len body0))) body0) (pseudo src dst 58 (len body0)) = true.
+Proof. exact (@icmp6_body_checksum src dst echo_id ttl). Qed.
+Print Assumptions C06_icmp6_checksum.
 
 (** all interleavings of the parallel engine: the TTLs handed to SendProbe are first, first+1, ... —
     at most one probe per TTL, in increasing order *)
